@@ -29,3 +29,21 @@ def split(ob, **dims):
     if ob.twins:
         out.append(Ob(ob.fn, dict(ob.cell), ob.tiers, ob.timeout, ob.path_timeout, ob.twins, ob.expect, ob.finding, ob.engine, main=False))
     return out
+
+
+def sample(ob_, k_, seed=1, **dims):
+    """A deterministic sample of `k_` cells of the product of the named dimensions (fixed seed: the same cells on every run).
+    Used where the full product of fully pinned cells is out of reach; the evidence lists exactly which cells were run."""
+    import itertools
+    import random
+    names = list(dims)
+    combos = list(itertools.product(*[dims[n] for n in names]))
+    rnd = random.Random(seed)
+    if k_ < len(combos):
+        combos = rnd.sample(combos, k_)
+    out = []
+    for combo in sorted(combos, key=repr):
+        cell = dict(ob_.cell)
+        cell['pin'] = dict(cell.get('pin') or {}, **dict(zip(names, combo)))
+        out.append(Ob(ob_.fn, cell, ob_.tiers, ob_.timeout, ob_.path_timeout, (), ob_.expect, ob_.finding, ob_.engine))
+    return out
